@@ -7,9 +7,9 @@
 // $Source$
 // $Revision$
 
-use fpdec_core::{i128_div_rounded, ten_pow, Round};
+use fpdec_core::{checked_mul_pow_ten, i128_div_rounded, ten_pow, Round};
 
-use crate::Decimal;
+use crate::{Decimal, DecimalError};
 #[cfg(doc)]
 use crate::RoundingMode;
 
@@ -39,7 +39,22 @@ impl Round for Decimal {
         if n_frac_digits >= self.n_frac_digits as i8 {
             self
         } else if n_frac_digits < self.n_frac_digits as i8 - 38 {
-            Self::ZERO
+            // |self| < 2 * 10 ^ -(n_frac_digits + 1), so the result is zero
+            // or +/- 10 ^ -n_frac_digits, depending on the sign of self and
+            // the rounding mode only.
+            let coeff = i128_div_rounded(self.coeff.signum(), 10, None);
+            if coeff == 0 {
+                Self::ZERO
+            } else {
+                match checked_mul_pow_ten(coeff, n_frac_digits.unsigned_abs())
+                {
+                    Some(coeff) => Self {
+                        coeff,
+                        n_frac_digits: 0,
+                    },
+                    None => panic!("{}", DecimalError::InternalOverflow),
+                }
+            }
         } else {
             // n_frac_digits < self.n_frac_digits
             let shift: u8 = (self.n_frac_digits as i8 - n_frac_digits) as u8;
@@ -86,7 +101,20 @@ impl Round for Decimal {
         if n_frac_digits >= self.n_frac_digits as i8 {
             Some(self)
         } else if n_frac_digits < self.n_frac_digits as i8 - 38 {
-            Some(Self::ZERO)
+            // |self| < 2 * 10 ^ -(n_frac_digits + 1), so the result is zero
+            // or +/- 10 ^ -n_frac_digits, depending on the sign of self and
+            // the rounding mode only.
+            let coeff = i128_div_rounded(self.coeff.signum(), 10, None);
+            if coeff == 0 {
+                Some(Self::ZERO)
+            } else {
+                checked_mul_pow_ten(coeff, n_frac_digits.unsigned_abs()).map(
+                    |coeff| Self {
+                        coeff,
+                        n_frac_digits: 0,
+                    },
+                )
+            }
         } else {
             // n_frac_digits < self.n_frac_digits
             let shift: u8 = (self.n_frac_digits as i8 - n_frac_digits) as u8;
